@@ -219,23 +219,30 @@ pub fn run(prop: &str, tier: Tier) -> (RunMeta, Acc) {
                 prop,
                 tier.name(),
                 "exploration",
-                "hook counters (entries into convert_expr/convert_pattern/convert_markup_impl/convert_math) are read after every format call and compared with the number of syntax nodes (conversions ≤ 2·nodes + 8); corpus and generators at widths {0,40,80,120,2^40}; depth ladders 1..256 for 24 pure wrapper families and seed-chosen mixed nestings, and flat families (n-term chains, n-call dot chains, n items/args/statements/lines/rows/cells, n = 1..1024) (a ladder stops at its first violation); secondary monitors: bytes allocated per call vs input+output size, CPU growth along ladders; distinct = input hash / ladder point; non-trivial = ≥ 20 syntax nodes",
+                "hook counters (entries into convert_expr/convert_pattern/convert_markup_impl/convert_math) are read after every format call and compared with the number of syntax nodes (conversions ≤ 2·nodes + 8); corpus, generators and splice/paren/comment/whitespace mutants at widths {0,40,80,120,2^40} (thorough: the 26-width grid × tab 2,4); depth ladders 1..256 for 26 pure wrapper families and seed-chosen mixed nestings, and flat families (n-term chains, n-call dot chains, n items/args/statements/lines/rows/cells, n = 1..1024) (a ladder stops at its first violation); secondary monitors: bytes allocated per call vs input+output size, CPU growth along ladders; distinct = input hash / ladder point; non-trivial = ≥ 20 syntax nodes",
             );
-            let cfgs: Vec<Cfg> = [0usize, 40, 80, 120, fmtx::W_INF].iter().map(|&w| Cfg::new(w, 2, false)).collect();
+            // quick: five widths; thorough/full: the 26-width grid × tab sizes {2, 4}
+            let cfgs: Vec<Cfg> = if tier == Tier::Quick {
+                [0usize, 40, 80, 120, fmtx::W_INF].iter().map(|&w| Cfg::new(w, 2, false)).collect()
+            } else {
+                workload::WIDTH_GRID.iter().flat_map(|&w| [2usize, 4].into_iter().map(move |t| Cfg::new(w, t, false))).collect()
+            };
             let mut parts = vec![Part::new(std.base_list(), usize::MAX, usize::MAX, fixed())];
-            gens(&mut parts, 1500, 10_000);
+            gens(&mut parts, 1500, gen::GEN_N);
             parts.push(Part::new(pools::splice_pool(std.small_bases.clone(), std.frags.clone()), 3000, 72_678, fixed()));
             parts.push(Part::new(pools::paren_pool(std.small_bases.clone()), 2000, 33_196, fixed()));
+            parts.push(Part::new(pools::comment_pool(std.small_bases.clone()), 1500, 120_000, fixed()));
+            parts.push(Part::new(pools::ws_pool(std.small_bases.clone()), 1000, 80_000, fixed()));
             let (mut acc, pm) = workload::run_parts(&parts, tier, seed, |_, case, _, acc| p_perf::run_case(case, &cfgs, acc));
             meta.pools = pm;
             // ladders (in-process, big stacks)
             let mut fams: Vec<usize> = (0..gen::NEST_FAMILIES).collect();
             let mut rng = Rng::new(seed ^ 0xC18);
-            let n_mixed = if tier == Tier::Quick { 200 } else { 2000 };
+            let n_mixed = if tier == Tier::Quick { 200 } else { 12_000 };
             for _ in 0..n_mixed {
                 fams.push(1000 + rng.below(1_000_000));
             }
-            let widths: Vec<usize> = if tier == Tier::Quick { vec![0, 80, fmtx::W_INF] } else { vec![0, 40, 80, 120, fmtx::W_INF] };
+            let widths: Vec<usize> = if tier == Tier::Quick { vec![0, 80, fmtx::W_INF] } else { vec![0, 1, 8, 20, 40, 80, 120, fmtx::W_INF] };
             use rayon::prelude::*;
             let accs: Vec<Acc> = fams
                 .par_iter()
@@ -280,7 +287,7 @@ pub fn run(prop: &str, tier: Tier) -> (RunMeta, Acc) {
             cases.extend(std.adversarial.clone());
             cases.extend(std.fixtures.iter().filter(|c| c.text.len() < 4000).cloned());
             let (n, threads, rounds, envn): (usize, Vec<usize>, usize, usize) =
-                if tier == Tier::Quick { (400, vec![2, 4, 16], 3, 100) } else { (1500, vec![2, 4, 16, 64], 6, 400) };
+                if tier == Tier::Quick { (400, vec![2, 4, 16], 3, 100) } else { (4000, vec![2, 3, 4, 8, 16, 64], 10, 1000) };
             let items = p_pure::build_items(&cases, n, &mut rng);
             let mut acc = Acc::new();
             p_pure::run(&items, &threads, rounds, seed, envn, &mut acc);
